@@ -59,7 +59,7 @@ man = {
  ],
  "checks": [],
  "not_applicable": [{"property_id": p, "reason": r} for p, r in sorted(todo.items())],
- "notes": "See DESIGN.md. known_findings.json lists genuine defects found by these checks (all repaired by fix: commits in /repo; 'fixed' entries suppress nothing).",
+ "notes": "See DESIGN.md. known_findings.json lists genuine defects found by these checks (all repaired by fix: commits in /repo; 'fixed' entries suppress nothing). seeded/RESULTS.md: 100 property-breaking changes written by sub-agents and which checks report them. ./run.sh witnesses replays the witnesses of the repaired defects under plain go test.",
 }
 for pid in sorted(checks):
     eng, tech, ref = checks[pid]
@@ -71,7 +71,7 @@ for pid in sorted(checks):
      "replay_cmd_template": "./run.sh replay {path}",
      "engine": eng,
      "level_claimed": {"category": "model_checking", "text": LEVEL_TEXT[eng], "design_ref": "DESIGN.md section " + ref},
-     "level_note": "Trusted: the Go toolchain; that the vinst rewriting preserves behaviour (the repository's suite passes on the instrumented build in setup_cmd; replay determinism is asserted before any violation is reported); the reference label model (Core subset of library subset of Env). Bounds: labels over 4 carrier struct types + 1 interface, names a/b/c, subtypes x/y; <=3 converters of <=2 inputs; orders within 1-2 deviations of sorted order plus global reversal.",
+     "level_note": "Trusted: the Go toolchain; that the vinst rewriting preserves behaviour (the repository's suite passes on the instrumented build in setup_cmd; replay determinism is asserted before any violation is reported); the reference label model (Core subset of library subset of Env). Bounds: labels over 5 carrier struct types, 2 pointer types, *myErr and 2 interfaces, names a/b/c, subtypes x/y; <=3 converters of <=2 inputs; orders within 1-2 deviations of sorted order plus global reversal; histories <=3/4 operations; <=2/3 threads with preemption bound 2/3.",
      "technique": tech,
     })
 json.dump(man, open(os.path.join(os.path.dirname(os.path.abspath(__file__)), "MANIFEST.json"), "w"), indent=1)
